@@ -232,7 +232,8 @@ def generate(rng, tier, cls):
         ops = ops + [o for o in more if o['op'] != 'new_tree' or
                      o.get('tree') == 'T2' and cls == 'assign']
     return {'actors': [{'id': 'A1', 'kind': 'dom', 'ops': ops}],
-            'schedule': [], 'faults': []}
+            'schedule': [], 'faults': [],
+            'dom_values': rng.choice([None] * 8 + ['sub', 'same'])}
 
 
 def vclass(v):
